@@ -20,6 +20,32 @@ def key(rj, lines):
     return "C17/%s/%s/%s" % (kind, rj["clause"], ev.get("name", ev.get("e", "?")))
 
 
+_PRE = ("#include <frg/optional.hpp>\n#include <frg/expected.hpp>\n#include <frg/variant.hpp>\n#include <frg/tuple.hpp>\n"
+        "#include <frg/manual_box.hpp>\nstruct V { long long v; V(long long x = 0) : v(x) {} };\nenum class Err : int { none = 0, bad = 1 };\n"
+        "using O = frg::optional<V>; using E = frg::expected<Err, V>; using W = frg::variant<long long, V>;")
+# every public state-changing operation and accessor the property names, one statement each
+PROBES = [(lbl, _PRE, st) for lbl, st in [
+    ("optional/construct", "O a; O b(frg::null_opt); V v(1); O c(v); O d(V(2)); O e(3); O f(c); O g(std::move(d));"),
+    ("optional/copy_assign", "O a, b; a = b;"), ("optional/move_assign", "O a, b; a = std::move(b);"),
+    ("optional/converting_copy_assign", "O a; const frg::optional<int> b; a = b;"),
+    ("optional/converting_move_assign", "O a; frg::optional<int> b; a = std::move(b);"),
+    ("optional/emplace", "O a; a.emplace(1);"),
+    ("optional/accessors", "O a(1); const O &c = a; (void)a.has_value(); (void)(bool)a; (void)*a; (void)*c; (void)a->v; (void)a.value(); (void)c.value();"),
+    ("expected/construct", "E a; E b(Err::bad); E c(V(1)); E d(c); E e(std::move(c));"),
+    ("expected/copy_assign", "E a, b; a = b;"), ("expected/move_assign", "E a, b; a = std::move(b);"),
+    ("expected/accessors", "E a(V(1)); const E &c = a; (void)(bool)a; (void)a.maybe_error(); (void)a.error(); (void)a.value(); (void)c.value(); (void)a.unwrap();"),
+    ("variant/construct", "W a; W b(V(1)); W c(b); W d(std::move(b));"),
+    ("variant/assign", "W a, b; a = b; a = std::move(b);"),
+    ("variant/emplace", "W a; a.emplace<V>(1); a.emplace<long long>(2);"),
+    ("variant/accessors", "W a(V(1)); const W &c = a; (void)(bool)a; (void)a.tag(); (void)a.is<V>(); (void)a.get<V>(); (void)c.get<V>();"),
+    ("variant/apply", "W a(V(1)); (void)a.apply([](auto &x) { return 0; });"),
+    ("variant/const_apply", "const W a(V(1)); (void)a.const_apply([](const auto &x) { return 0; });"),
+    ("manual_box", "frg::manual_box<V> b; b.initialize(1); (void)b.valid(); (void)(bool)b; (void)b.get(); (void)*b; (void)b->v; b.destruct();"),
+    ("tuple", "frg::tuple<int, V> t(1, V(2)); (void)t.get<0>(); auto u = frg::tuple_cat(t, frg::make_tuple(3)); "
+              "(void)frg::apply([](int a, V b) { return a; }, t); frg::tuple<long long, V> c(t);"),
+]]
+
+
 def long_histories(hists, n, length, rng):
     """Concatenate transitions into longer operation sequences (the last operation of each shortest history)."""
     ops = [h[-1] for h in hists if h]
@@ -35,7 +61,9 @@ def run(ctx):
                        "standard type; plus random operation sequences built from the same operations (legality is "
                        "decided by the trace spec); tuple get/apply/tuple_cat/reference identity over 6 value triples; "
                        "non-trivial = >= 2 operations")
-    binary, _ = build.build("holders", ["holders.cpp"], compiler="g++", std="c++2b")
+    binary, _ = ctx.build_or_probe(PROBES, "holders", ["holders.cpp"], compiler="g++", std="c++2b")
+    if binary is None:
+        return      # an operation of the property does not instantiate: reported above, nothing can be replayed
     rng = random.Random(ctx.seed)
     tp = os.path.join(ctx.work, "holders.trace")
     open(tp, "w").close()
